@@ -33,6 +33,9 @@ def run(tier, seed, replay_rows=None):
     ck.assumptions = ["scripted rate/random sources; run-length-encoded logs for long cycles",
                       "exactness claimed for N < 10^7 sub-ticks (MC_Distribution_Impl shows the bound N < Q)"]
     kw = dict(workers=8, timeout=300)
+    # unbounded: the regular distributor's fixed-point accumulator conserves the cycle's rate for EVERY cycle length
+    # n < Q and every rate in Nat (inductive invariant, Apalache); with n up to 3Q the induction must fail
+    vlib.inductive(ck, "DistributionInd", mutant="DistributionIndMut")
     vlib.flow(ck,
               mcs=[("Distribution", "MC_Distribution.cfg", kw),
                    ("Distribution", "MC_Distribution_Bresenham.cfg", kw),
